@@ -41,6 +41,9 @@ def o_pad(inp):
 def o_cutoff(inp):
     a = [tuple(m) for m in inp["abs"]]
     m_, r = inp["m"], inp["r"]
+    pre, _ = abs_timed(sorted(a, key=lambda m: (m[2], m[1], m[0], -1 if m[3] is None else m[3])))
+    if wf_violations(pre) or any(on >= off for (_, _, on, off, _) in notes_of(pre)) or not (1 <= r <= m_):
+        return [("~skip:outside-domain", "")]
     s = P.mk_abs(a)
     s.cutoff(m_, r)
     out = [from_real(x) for x in s._messages]
